@@ -8,7 +8,7 @@ R = "/repo"
 
 def word(src, a, b, within=None):
     # a local / parameter, never a field or method (`x.len`, `range.length`) and never part of a path (`a::len`)
-    return re.sub(r"(?<![.\w:])%s\b(?!\s*::)" % re.escape(a), b, src)
+    return re.sub(r'(?<![\w:"])(?<!(?<!\.)\.)%s\b(?!\s*::)' % re.escape(a), b, src)
 
 EDITS = {}
 
@@ -163,7 +163,7 @@ edit("B12-codec-decode-reorder", "actix-http/src/h1/codec.rs", b12)
 # B13 multipart read_stream: rename the candidate variables
 def b13(s):
     def f(t):
-        for a, b in (("b_len", "cand_len"), ("b_size", "cand_end"), ("cur", "pos")):
+        for a, b in (("b_len", "cand_len"), ("b_size", "cand_end"), ("cur", "cursor")):
             t = word(t, a, b)
         return t
     return region(s, r"fn read_stream\(", r"\n    pub\(crate\) fn poll\(", f)
@@ -175,6 +175,55 @@ def b14(s):
         return word(t, "req", "incoming")
     return region(s, r"fn call\(&self, mut req: Request\) -> Self::Future", r"\n    \}\n\}\n", f)
 edit("B14-app-service-rename", "actix-web/src/app_service.rs", b14)
+
+# B15 payload::Inner: the wake-up goes through a small helper (depth-1 wrapper)
+def b15(s):
+    old = """        self.need_read = self.len < MAX_BUFFER_SIZE;
+        self.wake();
+    }"""
+    new = """        self.need_read = self.len < MAX_BUFFER_SIZE;
+        self.notify_reader();
+    }
+
+    fn notify_reader(&mut self) {
+        self.wake();
+    }"""
+    assert s.count(old) == 1
+    return s.replace(old, new)
+edit("B15-payload-wake-helper", "actix-http/src/h1/payload.rs", b15)
+
+# B16 HeaderMap::remove: `match` instead of `if let`/`?`-free restructuring is covered elsewhere; here: ws codec decode
+# uses a local for the opcode test order (two independent early checks swapped)
+def b16(s):
+    old = """        if self.flags.contains(Flags::HEAD) {"""
+    return s  # placeholder: no edit (kept for numbering stability)
+
+# ---- generic: rename every simply-bound local (`let [mut] x`, `|x|`-free) of a function region to x_r -----------
+def rename_all(start_pat, end_pat):
+    def g(s):
+        def f(t):
+            names = set(re.findall(r"\blet\s+(?:mut\s+)?([a-z][a-z0-9_]*)\s*(?::|=|;)", t))
+            names -= {"this", "self", "_"}
+            # names used in struct-literal shorthand or as field-init shorthand would break: skip those
+            for n in sorted(names):
+                if re.search(r"[{,]\s*%s\s*[,}]" % re.escape(n), t) or re.search(r"\{\s*%s\s*\}" % re.escape(n), t) or re.search(r'\{%s[:}]' % re.escape(n), t):
+                    names.discard(n)
+            for n in sorted(names, key=len, reverse=True):
+                t = word(t, n, n + "_r")
+            return t
+        return region(s, start_pat, end_pat, f)
+    return g
+
+edit("B17-h2-handle_response-rename-all", "actix-http/src/h2/dispatcher.rs", rename_all(r"async fn handle_response<", r"\n\}\n"))
+edit("B18-ws-codec-rename-all", "actix-http/src/ws/codec.rs", rename_all(r"impl Decoder for Codec \{", r"\n\}\n"))
+edit("B19-awc-pool-rename-all", "awc/src/client/pool.rs", rename_all(r"fn call\(&self, req: Connect\) -> Self::Future", r"\n    \}\n\}\n"))
+edit("B20-headermap-rename-all", "actix-http/src/header/map.rs", rename_all(r"    pub fn append\(&mut self", r"\n    /// Clears the map|\n    pub fn clear|\n    pub fn iter\(&self\)"))
+edit("B21-quoter-rename-all", "actix-router/src/quoter.rs", rename_all(r"    fn decode_next<", r"\n\}\n"))
+edit("B22-h1-poll_request-rename-all", "actix-http/src/h1/dispatcher.rs", rename_all(r"    fn poll_request\(", r"\n    fn poll_head_timer|\n    fn poll_ka_timer|\n    fn poll_timers"))
+edit("B23-h1-poll_response-rename-all", "actix-http/src/h1/dispatcher.rs", rename_all(r"    fn poll_response\(", r"\n    fn handle_request\("))
+edit("B24-multipart-inner-poll-rename-all", "actix-multipart/src/multipart.rs", rename_all(r"    fn poll\(", r"\n\}\n"))
+edit("B25-files-path-rename-all", "actix-files/src/path_buf.rs", rename_all(r"    pub fn parse_path\(", r"\n    \}\n"))
+edit("B26-encoder-rename-all", "actix-http/src/encoding/encoder.rs", rename_all(r"impl<B> MessageBody for Encoder<B>", r"\n\}\n"))
 
 def main():
     out = os.path.join(V, "benign")
